@@ -37,7 +37,7 @@ CHECKS = {
    note="Sampled schedules (distinct outcome vectors counted); the live part counts on closed-loop loopback delivery.",
    tech="runtime monitoring: conservation oracle over recorded snapshot histories + API projection comparison (race detector) + socket-level conservation on a running service (faketime)"),
  "C20": dict(cat="fault_enumeration",
-   text="Child processes run the real credential manager and are cut off by RLIMIT_FSIZE=k (write error EFBIG, or death by SIGXFSZ) for EVERY k in 0..len(document)+1 of the save, for several store sizes and operations; the parent reloads the file with a fresh manager (must be the old or the new set; after a failed save memory keeps the new set and a later save repairs the file). Shutdown phases of the save debounce (queued, picked up, cooling down, at hook points before/after the save with late changes) are walked on a virtual clock: after Stop the file holds the acknowledged set. An instants part reads the kernel's own log of the store's directory (inotify) while the real manager saves, next to a goroutine that keeps loading the store like a restarting server: the only event allowed on the store's name is a complete file being moved onto it. A diskfull part meets a real ENOSPC on a small tmpfs for stores of 0..280 users (block-boundary growth) and reloads the store.",
+   text="Child processes run the real credential manager and are cut off by RLIMIT_FSIZE=k (write error EFBIG, or death by SIGXFSZ) for EVERY k in 0..len(document)+1 of the save, for several store sizes and operations; the parent reloads the file with a fresh manager (must be the old or the new set; after a failed save memory keeps the new set and a later save repairs the file; after a kill the server is restarted on what the crash left behind, a further change is acknowledged and must be on disk after a clean stop). Shutdown phases of the save debounce (queued, picked up, cooling down, at hook points before/after the save with late changes) are walked on a virtual clock: after Stop the file holds the acknowledged set. An instants part reads the kernel's own log of the store's directory (inotify) while the real manager saves, next to a goroutine that keeps loading the store like a restarting server: the only event allowed on the store's name is a complete file being moved onto it. A diskfull part meets a real ENOSPC on a small tmpfs for stores of 0..280 users (block-boundary growth) and reloads the store.",
    note="Crash = process death / write error; kernel page-cache loss (power failure) is not modelled. Hook-directed phases need the verif build tag; the diskfull part is skipped (with a note) where mounting a tmpfs is not permitted.",
    tech="runtime monitoring: exhaustive crash-point injection in child processes + hook-directed shutdown schedules (synctest) + inotify event-log / concurrent-reader monitor of the store's directory entry + real disk-full fault"),
  "C07": dict(cat="exploration",
@@ -53,7 +53,7 @@ CHECKS = {
    note="Ports are exhaustive per set; domain/prefix inputs sampled.",
    tech="runtime monitoring: cross-representation agreement with a naive reference matcher"),
  "C11": dict(cat="exploration",
-   text="The real service manager on loopback sockets for every (server protocol x client protocol incl. direct) pair and both batch modes: concurrent sessions send tagged datagrams to IP and domain targets (scripted resolver incl. a failing resolution), SS2022 client address change, unparsable garbage interleaved; observed at target and client sockets: no misdelivery / duplication / corruption, replies only to the owner with the true source, garbage starts nothing; a harness-played upstream interleaves valid replies with datagrams the relay must discard (stranger source, unparsable) inside the same receive batches; a client that moves from IPv4 to IPv6 mid-session; plus a race-detector stress part.",
+   text="The real service manager on loopback sockets for every (server protocol x client protocol incl. direct) pair and both batch modes: concurrent sessions send tagged datagrams to IP and domain targets (scripted resolver incl. a failing resolution), SS2022 client address change, unparsable garbage interleaved; observed at target and client sockets: no misdelivery / duplication / corruption, replies only to the owner with the true source, garbage starts nothing; a harness-played upstream interleaves valid replies with datagrams the relay must discard (stranger source, unparsable) inside the same receive batches; a client that moves from IPv4 to IPv6 mid-session; bursts in which datagrams for destinations the kernel refuses (limited broadcast, port 0) sit between deliverable ones, so that sendmmsg batches stop part-way; plus a race-detector stress part.",
    note="Closed-loop delivery on loopback assumed loss-free; virtual clock frozen while traffic flows (GC disabled in ft children).",
    tech="runtime monitoring: exactly-once / right-destination oracle over tagged datagrams on real sockets (faketime + race detector)"),
  "C15": dict(cat="exploration",
@@ -65,23 +65,23 @@ CHECKS = {
    note="Four genuine deviations are open known findings (F19-F22); a request pipelined behind the client's own Connection: close is a documented don't-care.",
    tech="runtime monitoring: semantic message-equality oracle over captured origin/client byte streams (plain + race detector)"),
  "C12": dict(cat="fault_enumeration",
-   text="Lifecycle schedules of the real UDP relays (NAT and session relay, recvmmsg and generic paths) on a virtual clock: idle eviction at natTimeout-/+eps with restart, Stop when idle / established / with bursts in flight / right after timeouts / while initialisation is held in name resolution / with a goroutine held at the re-arm or state-swap hook, failing initialisation (router reject, upstream refused), eviction of a session whose client address has become unsendable; after Run returns the process is audited: goroutines and sockets back to baseline, listener port reusable, virtual time consumed by Stop < natTimeout/2.",
+   text="Lifecycle schedules of the real UDP relays (NAT and session relay, recvmmsg and generic paths) on a virtual clock: idle eviction at natTimeout-/+eps with restart, Stop when idle / established / with bursts in flight / right after timeouts / while initialisation is held in name resolution / with a goroutine held at the re-arm or state-swap hook, failing initialisation (router reject, upstream refused), eviction of a session whose client address has become unsendable, a later server failing to start while sessions are live (Run stops the relay by itself, nothing cancels its context), listeners on 127.0.0.1 and on the dual-stack wildcard address; after Run returns the process is audited: goroutines and sockets back to baseline, listener port reusable, virtual time consumed by Stop < natTimeout/2.",
    note="Multi-user SS2022 servers run with the SIGUSR1 reload registration left out through a verif hook (os/signal would make the fake clock unadvanceable); kernel fault injection (EMFILE, ICMP) not in this tier; leak audit by process-wide goroutine/socket counts.",
    tech="runtime monitoring: lifecycle-phase enumeration with hook-directed schedules on the runtime's fake clock + leak/virtual-time audit"),
  "C13": dict(cat="exploration",
-   text="The real service manager over real loopback TCP for server x client protocol pairs incl. chained proxies and a dead upstream: initial payload sizes around 1440 handed to the dial, first data at virtual t in {0, 249 ms, 251 ms, never} around the 250 ms wait, further writes, target behaviours (echo, banner after EOF, speak first, half-close first, sink, answer then RST), wait disabled or not, IP/domain targets, dial failures (refused, router reject, resolver failure); oracle: exactly one onward connection to the requested target, both byte streams exact, half-closes mirrored while the other direction keeps flowing, failure reported by the protocol's reply unless success had to be signalled first (then a clean close without stray bytes), API statistics equal to the bytes seen at the sockets.",
+   text="The real service manager over real loopback TCP for server x client protocol pairs incl. chained proxies and a dead upstream: initial payload sizes around 1440 handed to the dial, first data at virtual t in {0, 249 ms, 251 ms, never} around the 250 ms wait, further writes, target behaviours (echo, banner after EOF, speak first, half-close first, sink, answer then RST), wait disabled or not, IP/domain targets, dial failures (refused, router reject, resolver failure); HTTPS proxies (TLS, optionally with client certificate) as server and as chained client; plain non-CONNECT requests on a kept-alive proxy connection with idle gaps around and far beyond the wait; oracle: exactly one onward connection to the requested target, both byte streams exact, half-closes mirrored while the other direction keeps flowing, failure reported by the protocol's reply unless success had to be signalled first (then a clean close without stray bytes), API statistics equal to the bytes seen at the sockets.",
    note="Exact SOCKS5 failure codes judged for a direct upstream only.",
    tech="runtime monitoring: stream-equality / half-close / reply oracle on real TCP sockets (faketime + race detector) with conservation check against the statistics API"),
  "C18": dict(cat="exploration",
-   text="JSON documents = a valid template with every server/client family, client group, resolver and routed sets, plus one labelled mutation (or several compatible ones) per documented invariant (key lengths incl. iPSKs and store entries, SS2022 NAT timeout vs replay window incl. legacy field, MTU 1279/1280, batch sizes, channel capacity, unknown protocol/mode/policy/field, dangling and duplicate names, tunnel address forms); loaded by the real Config.Manager after strict decoding and compared with a reference validator; accepted documents (incl. legacy single-listener forms) are started and driven with a UDP and a TCP exchange through each kind of server; omitted / empty / explicit-default forms of the policy fields must select the same function.",
+   text="JSON documents = a valid template with every server/client family, client group, resolver and routed sets, plus one labelled mutation (or several compatible ones) per documented invariant (key lengths incl. iPSKs and store entries, SS2022 NAT timeout vs replay window incl. legacy field, MTU 1279/1280, batch sizes, channel capacity, unknown protocol/mode/policy/field, dangling and duplicate names, tunnel address forms, client server-address forms); loaded by the real Config.Manager after strict decoding and compared with a reference validator; accepted documents (incl. legacy single-listener forms) are started and driven with a UDP and a TCP exchange through each kind of server; omitted / empty / explicit-default forms of the policy fields must select the same function.",
    note="tproxy/redirect/TLS not generated; default NAT timeout and initial-payload wait values are exercised by C12/C13 rather than here.",
    tech="runtime monitoring: mutation-labelled configuration generation with a reference validator + smoke traffic through accepted configurations (checkptr + faketime builds)"),
  "C19": dict(cat="exploration",
-   text="Real ClientGroupConfig.AddClientGroup and its probe service over 1-5 fake clients (plus non-member decoys) answering scripted probe outcomes on a virtual clock for 100-150 rounds (longer than the 64/32-round retention, with profiles that flip exactly one retention later, ties, dead members); an independent model (retained history, failure = timeout, first client in configuration order with the strictly best score) is compared with the client actually handed out right after each round, at random instants and DURING rounds; round-robin under the race detector: exact cyclic order single-threaded, ticket multiset and porcupine fetch-and-increment model concurrently; random: members only; UDP groups probe a scripted DNS responder over loopback on the fake clock.",
+   text="Real ClientGroupConfig.AddClientGroup and its probe service over 1-5 fake clients (plus non-member decoys) answering scripted probe outcomes on a virtual clock for 100-150 rounds (longer than the 64/32-round retention, with profiles that flip exactly one retention later, ties, dead members, sub-millisecond latency differences); an independent model (retained history, failure = timeout, first client in configuration order with the strictly best score) is compared with the client actually handed out right after each round, at random instants and DURING rounds; round-robin under the race detector: exact cyclic order single-threaded, ticket multiset and porcupine fetch-and-increment model concurrently; random: members only; UDP groups probe a scripted DNS responder over loopback on the fake clock.",
    note="Rounds never overrun the interval; instants at which a probe completes are not observed; counter wrap at 2^63 out of scope.",
    tech="runtime monitoring: reference policy model + porcupine over recorded selections (synctest virtual clock, race detector, faketime for UDP probes)"),
  "C17": dict(cat="fault_enumeration",
-   text="The real dns.Resolver (real direct UDP/TCP clients) against a scripted UDP+TCP upstream on loopback with decoy sockets (other IP, same IP other port) on the runtime's fake clock: every pair of scripted reactions per query for UDP (19) and TCP (15) incl. truncation, wrong ID, wrong source, RA=0, failure rcodes, NXDOMAIN with SOA, garbage, silence, TCP closes at every framing point; lookup histories of 1-4 names straddling each TTL, the negative TTL and the 30 s failure time with cache capacities 1-4/unbounded, serve-stale and recovery; mutated replies followed by genuine lookups. Oracle: unique addresses per script make provenance visible; the fake upstream counts queries so both bounds of a cache lifetime are enforced.",
+   text="The real dns.Resolver (real direct UDP/TCP clients) against a scripted UDP+TCP upstream on loopback with decoy sockets (other IP, same IP other port) on the runtime's fake clock: every pair of scripted reactions per query for UDP (19) and TCP (15) incl. truncation, wrong ID, wrong source, RA=0, failure rcodes, NXDOMAIN with SOA, garbage, silence, TCP closes at every framing point; lookup histories of 1-4 names straddling each TTL, the negative TTL and the 30 s failure time with cache capacities 1-4/unbounded, serve-stale and recovery; mutated replies followed by genuine lookups; storms of concurrent lookups on one resolver under the race detector (own addresses only, cached names never re-fetched, cache never beyond its capacity). Oracle: unique addresses per script make provenance visible; the fake upstream counts queries so both bounds of a cache lifetime are enforced.",
    note="Mixed-nature results use the [min,max] interval of the candidate lifetimes (don't-care inside); caller-context cancellation not exercised; a violation is reported only if it reproduces in a re-execution.",
    tech="runtime monitoring: scripted-upstream fault enumeration with provenance/expiry oracle on real sockets under the faketime clock"),
 }
